@@ -12,9 +12,20 @@
 
   one pair of theorems per modelled measure.  The measures are the functions the driver runs
   (XgiModel/C09/Measures.lean).  Property theorems only; helper lemmas are in XgiModel/C09/Lemmas*.lean.
+
+  WHAT THESE THEOREMS DO AND DO NOT SHOW.  The measures are written against `View` (nodes, edge IDs,
+  members-by-ID, memberships) with `=`, `∈`, map, filter, length only.  In that language a positional bug
+  (`members()[edge_id]`, finding F7) cannot be expressed, so the theorems say that the DEFINITIONS are label-
+  and order-independent; they do not establish the property for /repo, and no edit of /repo can make them
+  fail.  C09 is decided by the metamorphic run of harness/props/c09.py on the real code; the model is tied to
+  the code by the differential correspondence on the original labelling only.  The one quantity for which
+  the statement can hold only up to a choice — `duplicates()` leaves out one representative per class, picked
+  by sorted ID; no rule for that choice is invariant under both transformations — is modelled as the code
+  runs it (`duplicates`), with the exact side conditions and counter-examples below.
 -/
 import XgiModel.C09.LemmasRen
 import XgiModel.C09.LemmasBFS
+import XgiModel.C09.LemmasDup
 
 namespace Xgi.C09
 open Function
@@ -91,21 +102,8 @@ theorem C09_two_node_clustering_coefficient_reorder (hw : h.WF) (hr : Reorder h 
 
 /-! ### connected components and distances -/
 
-/-- the fuel `len(H.nodes)` given to the BFS suffices: the result is closed under taking neighbours, and it is
-    exactly the set of nodes reachable from the source -/
-theorem C09_bfs_fuel_suffices (h : Net) (n : PyId) :
-    (∀ m x, m ∈ comp (view h) n → x ∈ (view h).nodes → x ∈ neighbors (view h) m → x ∈ comp (view h) n) ∧
-    (∀ m, m ∈ comp (view h) n ↔ Reach (view h) n m) :=
-  ⟨fun _ _ hm hx hmx => comp_closed hm hx hmx, fun _ => mem_comp⟩
-
-/-- the loop of `connected_components` lists BFS sets of nodes and covers every node -/
-theorem C09_components_cover (h : Net) :
-    (∀ c ∈ components (view h), ∃ a ∈ (view h).nodes, c = comp (view h) a) ∧
-    (∀ a ∈ (view h).nodes, ∃ c ∈ components (view h), a ∈ c) := by
-  refine ⟨compLoop_sub _ _, fun a ha => ?_⟩
-  rcases compLoop_cover (fun a ha => self_mem_comp ha) (view h).nodes [] (fun _ h => h) a ha with h0 | h1
-  · cases h0
-  · exact h1
+/-! (model adequacy of the BFS — the fuel `len(H.nodes)` suffices, the loop covers every node — is
+    `comp_fuel_suffices` / `components_cover` in XgiModel/C09/LemmasBFS.lean; not an invariance statement) -/
 
 theorem C09_connected_components_rename (hπ : Injective π) (hσ : Injective σ) (h : Net) :
     components (view (rename π σ h)) = (components (view h)).map (List.map π) ∧
@@ -151,12 +149,44 @@ theorem C09_maximal_reorder (hw : h.WF) (hr : Reorder h h') (strict : Bool) :
     (maximal (view h') strict).Perm (maximal (view h) strict) ∧ hasEmptyEdge (view h') = hasEmptyEdge (view h) :=
   ⟨maximal_perm (vperm hw hr) strict, hasEmptyEdge_perm (vperm hw hr)⟩
 
-theorem C09_duplicates_rename (hπ : Injective π) (hσ : Injective σ) (h : Net) :
+/-- the edges that have a twin (the union of the classes of size > 1 that `duplicates()` forms) are
+    equivariant under EVERY injective relabelling … -/
+theorem C09_duplicate_classes_rename (hπ : Injective π) (hσ : Injective σ) (h : Net) :
     dupEdges (view (rename π σ h)) = (dupEdges (view h)).map σ :=
   dupEdges_ren hπ hσ (view_rename hπ hσ h)
 
-theorem C09_duplicates_reorder (hw : h.WF) (hr : Reorder h h') : (dupEdges (view h')).Perm (dupEdges (view h)) :=
+/-- … and invariant under every re-insertion -/
+theorem C09_duplicate_classes_reorder (hw : h.WF) (hr : Reorder h h') : (dupEdges (view h')).Perm (dupEdges (view h)) :=
   dupEdges_perm (vperm hw hr)
+
+/-- `H.edges.duplicates()` itself (`duplicates`, the function the driver runs and the harness compares with
+    the real method): the edges that have a twin, minus the one ID `keptOf` of their class -/
+theorem C09_duplicates_spec (hw : h.WF) (e : PyId) :
+    e ∈ duplicates (view h) ↔ e ∈ dupEdges (view h) ∧ keptOf (twins (view h) e) ≠ some e :=
+  mem_duplicates (v := view h) hw.2.1
+
+/-- the ID left out of a class is a member of it: the smallest one (`sorted(cls)[0]`) when the IDs are mutually
+    comparable, the first inserted one when `sorted` raises `TypeError` (an int next to a str) -/
+theorem C09_duplicates_kept (cls : List PyId) (hne : cls ≠ []) :
+    ∃ k, keptOf cls = some k ∧ k ∈ cls ∧
+      (sortable cls = true → ∀ x ∈ cls, pyLt? x k ≠ some true) ∧
+      (sortable cls = false → cls.head? = some k) := keptOf_spec hne
+
+/-- `duplicates()` is equivariant under a relabelling of the edge IDs that PRESERVES PYTHON'S ORDER on them
+    (`OrdPres σ`: ints to ints / strs to strs monotonically, e.g. adding a constant).  For an arbitrary
+    bijection it is not — which ID is smallest changes; counter-example below (`swap01`) — so the property
+    statement's "duplicate edges … except by the same renaming" can only be read on the classes
+    (`C09_duplicate_classes_rename`), and that is what the metamorphic run compares under relabelling. -/
+theorem C09_duplicates_rename (hπ : Injective π) (hσ : Injective σ) (ho : OrdPres σ) (h : Net) :
+    duplicates (view (rename π σ h)) = (duplicates (view h)).map σ :=
+  duplicates_ren hπ hσ ho (view_rename hπ hσ h)
+
+/-- `duplicates()` is invariant under re-insertion when the edge IDs are mutually comparable (all ints or all
+    strs); with mixed IDs `sorted` raises and the first INSERTED twin is kept: order dependent, counter-example
+    below.  The metamorphic run compares the exact result under re-insertion in the comparable case. -/
+theorem C09_duplicates_reorder (hw : h.WF) (hr : Reorder h h') (hs : sortable h.edgeIds = true) :
+    (duplicates (view h')).Perm (duplicates (view h)) :=
+  duplicates_perm (vperm hw hr) hs
 
 /-! ### the degree pairs of the exact degree assortativity -/
 
@@ -275,5 +305,39 @@ example : localCC (view (rename id swap01 demo)) (.int 1) = 1 / 2 := by
   simp [localCC, view, demo, rename, swap01, Net.memberships, Net.members, pairs, extraOverlap, diff, nbrsOfSet, neighbors,
     dedup, ins, rm]
   grind
+
+/-- edges 0 and 1 are equal; 2 is not -/
+private def dupNet : Net :=
+  { nodes := [.int 1, .int 2, .int 3]
+    edges := [(.int 1, [.int 1, .int 2]), (.int 0, [.int 2, .int 1]), (.int 2, [.int 3])] }
+
+/-- `duplicates()` reports the LARGER of the two equal edges, whatever the insertion order -/
+example : duplicates (view dupNet) = [.int 1] ∧ duplicates (view (reverseAll dupNet)) = [.int 1] ∧
+    dupEdges (view dupNet) = [.int 1, .int 0] := by decide
+/-- `swap01` is injective but not order preserving: the representative is not renamed along -/
+example : duplicates (view (rename id swap01 dupNet)) = [.int 1] ∧ (duplicates (view dupNet)).map swap01 = [.int 0] := by decide
+example : ¬ OrdPres swap01 := fun ho => by
+  have := ho (.int 0) (.int 1)
+  simp [swap01, pyLt?] at this
+/-- an order-preserving relabelling: ints shifted by 10 -/
+private def shift10 (x : PyId) : PyId := match x with
+  | .atom (.int i) => .atom (.int (i + 10))
+  | y => y
+example : OrdPres shift10 := by
+  intro a b
+  cases a with
+  | atom x => cases b with
+    | atom y => cases x <;> cases y <;> simp [shift10, pyLt?]
+    | tup l => cases x <;> simp [shift10, pyLt?]
+    | none => cases x <;> simp [shift10, pyLt?]
+  | tup l => simp [shift10, pyLt?]
+  | none => simp [shift10, pyLt?]
+example : duplicates (view (rename id shift10 dupNet)) = [.int 11] := by decide
+/-- mixed int / str edge IDs: `sorted` raises, the first inserted twin is kept — insertion-order dependent -/
+private def mixNet : Net :=
+  { nodes := [.int 1, .int 2], edges := [(.str "a", [.int 1, .int 2]), (.int 7, [.int 1, .int 2])] }
+example : sortable mixNet.edgeIds = false ∧ duplicates (view mixNet) = [.int 7] ∧
+    duplicates (view (reverseAll mixNet)) = [.str "a"] := by decide
+example : sortable dupNet.edgeIds = true := by decide
 
 end Xgi.C09
